@@ -9,6 +9,15 @@ COMMON_NOTE = ("Trusted: Coq 8.16.1 kernel and its VM (vm_compute; no native_com
                "(virtual clock, scheduler, canonicalisation, case printer). ")
 # id -> (text, note, technique, design_ref)
 CLAIMED = {
+ "C07": ("Theorems for every event sequence (any number of callers and keys; calls, task starts, body resumptions, done-callbacks and cancellations in any order, "
+         "each loop callback its own event - finer than any real schedule): at most one body per key executes (8-part invariant by induction); a call made while a task "
+         "is registered joins it and starts nothing; a caller is handed exactly the outcome of the task it joined, a waiter's task stays registered until its callback "
+         "wakes him; with shielded waiting no caller gets a CancelledError it did not ask for, and cancelling a waiting caller changes nothing else now or after any "
+         "continuation (simulation); the unshielded variant is refuted by a computed witness. Real @cache / @cache(lock=True) / @early / @soft callers run under the "
+         "deterministic scheduler (start and body gates, one cancellation, two tasks released into one loop iteration); the observed event log is replayed on the "
+         "model and judged by an oracle written from the property's words. Thorough tier enumerates every schedule of 3 and 3+1 callers.",
+         "asyncio's shield / cancellation / callback order are the interpreter's (partial: theorem about the model + replayed logs); TTLs beyond the run; one process.",
+         "Coq proof (invariant + simulation over all event sequences) + log replay from scheduled real tasks, exhaustive schedule enumeration in the thorough tier", "3/C07"),
  "C06": ("Theorems for every event sequence (any number of tasks, any interleaving of attempts, exits, foreign unlocks and clock advances, per-acquisition ttl): "
          "two tasks inside at once implies one of them has overstayed its own ttl (3-part invariant by induction); unlock releases iff the live entry holds exactly the "
          "presented token; leaving removes the entry carrying the task's token; an attempt succeeds whenever there is no live entry. Real cache.lock / @locked / "
